@@ -23,6 +23,8 @@ func checkC31(c *Ctx, r *Report) {
 	r.rule("C31.R2", "batch re-framing writes only Records/NumRecords/Attributes/Length/CRC/Raw, in the order Length → CRC(Castagnoli over [21:]) → Raw", 6)
 	r.rule("C31.R3", "every decoded record is re-encoded, untouched batches keep their bytes, all batches are re-joined", 3)
 	r.rule("C31.R4", "lfsEncodeRecord writes the record fields in Kafka v2 order", 1)
+	r.rule("C31.R5", "re-encoded batches are written into fresh memory, never into the request's own buffer", 3)
+	checkAppendToFresh(m, r)
 
 	fn := needFn(m, r, "C31.R1", pkgProxy, "(*lfsModule).rewriteProduceRecords")
 	if fn == nil {
@@ -467,5 +469,69 @@ func checkC31(c *Ctx, r *Report) {
 		} else {
 			r.viol("C31.R4", "lfsEncodeRecord field order", m.Pos(er.Pos()), "fields are read in the order ["+got+"], Kafka v2 needs ["+strings.Join(want, " ")+"]")
 		}
+	}
+}
+
+// checkAppendToFresh: the batches of one partition (and of one request frame) share a buffer — every
+// batch's Raw and the partition's Records are sub-slices of it. Re-encoding a batch that grew into
+// Raw[:0] or into an earlier result overwrites the batches that follow. Every kmsg AppendTo in the
+// LFS rewrite path gets nil (or a slice this function allocated) as destination.
+func checkAppendToFresh(m *Module, r *Report) {
+	n := 0
+	for _, fn0 := range m.FuncsInPkg(pkgProxy) {
+		for _, fn := range withAnon(fn0) {
+			for _, call := range callsIn(fn) {
+				cc := call.Common()
+				if !strings.HasSuffix(calleeName(cc), "kmsg.RecordBatch).AppendTo") {
+					continue
+				}
+				n++
+				dst := cc.Args[len(cc.Args)-1]
+				key := fmt.Sprintf("AppendTo in %s writes into fresh memory [%d]", fn.Name(), n)
+				bad := ""
+				var fresh func(v ssa.Value, depth int) bool
+				fresh = func(v ssa.Value, depth int) bool {
+					if depth > 6 {
+						return false
+					}
+					os := origins(v)
+					if len(os) == 0 {
+						return false
+					}
+					for _, o := range os {
+						switch x := strip(o).(type) {
+						case *ssa.Const:
+							if !x.IsNil() {
+								return false
+							}
+						case *ssa.MakeSlice:
+						case *ssa.Slice:
+							if !fresh(x.X, depth+1) {
+								return false
+							}
+						case *ssa.Call:
+							// the result of an earlier encode into fresh memory is this function's own buffer
+							if !strings.HasSuffix(calleeName(&x.Call), "kmsg.RecordBatch).AppendTo") || !fresh(x.Call.Args[len(x.Call.Args)-1], depth+1) {
+								return false
+							}
+						default:
+							return false
+						}
+					}
+					return true
+				}
+				if !fresh(dst, 0) {
+					bad = "destination " + describe(dst) + " is not nil or memory this function allocated: the encoder writes over bytes that other batches of the request still point into"
+				}
+				if bad == "" {
+					r.ok("C31.R5", key, m.Pos(call.Pos()), "")
+				} else {
+					r.viol("C31.R5", key, m.Pos(call.Pos()), bad)
+				}
+			}
+		}
+	}
+	if n == 0 {
+		r.unresolved("C31.R5", "RecordBatch.AppendTo calls in cmd/proxy", "none found")
 	}
 }
